@@ -185,11 +185,15 @@ CLAIMED["C14"] = dict(
          "its descriptor, the process's descriptor set and the user's callback store: routes_equivalent (simulation, for every operation sequence: path, descriptor, callbacks and a "
          "descriptor at offset k with any bytes around give the same results and logical content), embedded_window (bytes in front of fileoffset never modified; a reader inside the "
          "window cannot see what follows it), close_desc_iff (the handle's descriptor is closed iff close_desc, no other descriptor ever), written_bytes_route_independent, "
-         "pipe_equivalent, the embedding whitelist and the RDWR / SD2 refusals. Partial: the full statement is refuted by proved witnesses in three known-finding classes "
-         "(SFC_FILE_TRUNCATE through virtual I/O, SFC_FILE_TRUNCATE on an embedded write handle, embedded read of a file shorter than its header says), each replayed every run; "
-         "two further exclusions (seek in front of the window, unknown whence) are proved to diverge and are never issued by the upper layer. Tied to the code by a sampled "
-         "correspondence that calls the real psf_* primitives on real descriptors, pipes and callbacks, by the open gate compared through SFC_GET_EMBED_FILE_INFO and fcntl (F_GETFD), "
-         "and by a route-against-route campaign over every writable format (SF_INFO, samples, strings, errors, written bytes). OS behaviour of descriptors and pipes is exercised, not modelled.",
+         "pipe_equivalent, the embedding whitelist and the RDWR / SD2 refusals; sf_open_fd establishes the relation (openFd_read_rel); sf_seek / psf_default_seek / sf_read_raw modelled over any "
+         "route (api_routes_equivalent) and a whole read session open -> calls -> close (session_end_to_end: same results as on the bare bytes, descriptor closed iff close_desc, no other descriptor touched). "
+         "Six defects found by this check are repaired (fix: patches 0001-0005: SFC_FILE_TRUNCATE through virtual I/O, psf_ftruncate ignoring fileoffset, psf_get_filelen counting the bytes in front of an "
+         "embedded file -- which also ended an SVX scan hang --, the 44-byte bound on embedded files, truncated embedded AU files); the old rules are kept as *_old_rule theorems and the witnesses run as regressions. "
+         "Still outside the covered operation set, each proved to diverge: truncate through callbacks (no such callback: refused cleanly, truncate_vio_refused_cleanly), a seek in front of the window and an unknown "
+         "whence (never issued by the upper layer), psf_get_filelen after a parser has set filelength to the header's own size (by design). Tied to the code by a sampled correspondence that calls the real psf_* "
+         "primitives on real descriptors, pipes (read and write ends) and callbacks, by the open gate compared through SFC_GET_EMBED_FILE_INFO and fcntl (F_GETFD), by sf_seek / sf_read_raw transcripts compared with the model, "
+         "and by a route-against-route campaign over every writable format (SF_INFO, samples, strings, errors, written bytes, files shorter than their header). OS behaviour of descriptors and pipes is exercised, not modelled; "
+         "stdin/stdout through psf_set_stdio is not exercised.",
     technique="Lean 4 theorems over a hand-written model + sampled correspondence on the real shim primitives + route-against-route campaign on implementation transcripts",
     design_ref="DESIGN.md §7 C14")
 CLAIMED["C19"] = dict(
